@@ -88,7 +88,9 @@ let spec input obs_s =
           (match Stdlib.List.rev e.batch with last :: _ -> filtered_inv := Some last | [] -> ());
         prev_tip := t; prev_state := e.state) step) o.steps;
     (* ---- convergence ---- *)
-    if !verdict = "OK" && reachable <> [] && not !caveat && not !inv_to_exp then begin
+    (* convergence is a statement about the quiescent system: the script has to end with a run command *)
+    let ends_with_run = (match Stdlib.List.rev sc.cmds with c :: _ -> c.[0] = 'R' | [] -> false) in
+    if !verdict = "OK" && reachable <> [] && not !caveat && not !inv_to_exp && ends_with_run then begin
       if not (SyncSpec.spec_converged gw own offers rows (n_of_int o.tip)) then begin
         let stored i = Stdlib.List.exists (fun (j, _, _, _, _) -> i = j) o.rows in
         let best = zt_of_z (SyncSpec.best_offer gw offers) in
